@@ -335,6 +335,9 @@ package dns
 
 //@ func unpackDataSVCB [C01 C02]
 //@   requires 0 <= off
+// the parameters fill the RDATA to its end: success means everything was consumed (a last parameter with an empty value
+// - four octets - included)
+//@   ensures whole: ret2 == nil && off <= len(msg) ==> ret1 == len(msg) [C01]
 //@   ensures ok:   ret2 == nil ==> off <= ret1 && (off <= len(msg) ==> ret1 <= len(msg))
 //@   ensures fail: ret2 != nil ==> ret1 == len(msg)
 //@   loop 1 invariant old(off) <= off && (old(off) <= len(msg) ==> off <= len(msg))
